@@ -169,6 +169,9 @@ def make_cap_run(corner):
 
 
 def build(S):
+    from . import optdefaults
+
+    optdefaults.check(S, "hypnotoad.core.equilibrium:EquilibriumRegion.getSpacings", which=("eq", "nonorth"))
     mk.silence_pyplot()
     S.under_contract(FN_SN, "hypnotoad.cases.tokamak:TokamakEquilibrium.describeDoubleNull", "hypnotoad.cases.tokamak:TokamakEquilibrium.createRegionObjects", "hypnotoad.core.mesh:MeshRegion.calcMetric", "hypnotoad.core.mesh:BoutMesh.writeGridfile")
     S.assume("the geometric content of the mirror symmetry (findLegs, contours, refinement are equivariant under Z -> -Z) is NOT proved: bounded comparison of complete grids only")
